@@ -589,6 +589,10 @@ theorem raises_deleteM (d : Dialect) (B : Nat) (L : Layout) : Raises IffErr (del
   · exact Raises.pure _ _
 
 
+theorem raises_deleteWaveMethodM (d : Dialect) (B : Nat) (L : Layout) : Raises IffErr (deleteWaveMethodM d B L) := by
+  unfold deleteWaveMethodM
+  exact Raises.bind raises_verifyM fun _ => raises_deleteM d B L
+
 theorem OkAgree.ite' {c : Prop} [Decidable c] {m n : FileM α} (hm : OkAgree m) (hn : OkAgree n) : OkAgree (if c then m else n) := by
   split <;> assumption
 
@@ -689,6 +693,10 @@ theorem ok_deleteM (d : Dialect) (B : Nat) (L : Layout) : OkAgree (deleteM d B L
   split
   · exact ok_deleteChunkM _ _ _ _ _
   · exact OkAgree.pure _
+
+theorem ok_deleteWaveMethodM (d : Dialect) (B : Nat) (L : Layout) : OkAgree (deleteWaveMethodM d B L) := by
+  unfold deleteWaveMethodM
+  exact OkAgree.bind ok_verifyM fun _ => ok_deleteM d B L
 
 /-- `delete` on a quiet device (any capacity: nothing grows): the ID3 chunk is cut out, the root size follows -/
 theorem deleteM_q {e : Env} (hq : Quiet e) (d : Dialect) (hd : d.WF) (B : Nat) (hB : 0 < B) (L : Layout) (h : L.OK d)
